@@ -108,6 +108,63 @@ fn many_tasks(rep: &Report, n: usize) {
     }
 }
 
+/// Racing syncs while the server asks for snapshots: every snapshot uploaded in every
+/// interleaving must still be the state of exactly its version.
+fn races(rep: &Report, opts: &Opts) {
+    use super::c02::{start_states_active, subsets, Race};
+    use crate::explore::sched::{explore, ExploreCfg};
+    use rayon::prelude::*;
+    let q = opts.tier == Tier::Quick;
+    let three = vec![("p".to_string(), Some("a".to_string()), 1), ("p".to_string(), Some("b".to_string()), 2), ("q".to_string(), Some("a".to_string()), 1)];
+    let deadline = std::time::Instant::now() + std::time::Duration::from_secs_f64((opts.budget_s - rep.elapsed()).max(5.0));
+    for (name, starts) in [
+        ("races-R3-populated", start_states_active(3, 3, if q { 3 } else { 4 }, three.clone(), 0, true)),
+        ("races-R3-fresh", start_states_active(3, 2, if q { 4 } else { 5 }, three.clone(), 0, false)),
+    ] {
+        let jobs: Vec<(usize, Vec<usize>)> = starts
+            .iter()
+            .enumerate()
+            .flat_map(|(i, (w, _))| {
+                subsets(w.reps.len())
+                    .into_iter()
+                    .filter(|s| s.iter().any(|&r| !w.obs[r].unsynced.is_empty()))
+                    .map(move |s| (i, s))
+            })
+            .collect();
+        let results: Vec<_> = jobs
+            .par_iter()
+            .map(|(i, racers)| {
+                let sc = Race { world: starts[*i].0.clone(), racers: racers.clone(), urg: Urg::High, snapshots_only: true };
+                let cfg = ExploreCfg { bound: if racers.len() >= 3 { 2 } else { usize::MAX }, max_schedules: 1_000_000, deadline: Some(deadline), seen: Some(Default::default()) };
+                let (st, fails) = explore(&sc, &cfg);
+                (*i, racers.clone(), st, fails)
+            })
+            .collect();
+        let (mut schedules, mut nontrivial) = (0u64, 0u64);
+        for (i, racers, st, fails) in results {
+            schedules += st.schedules;
+            nontrivial += st.nontrivial_outcomes.len() as u64;
+            if st.capped {
+                rep.set("exhaustive", false);
+            }
+            for f in fails.into_iter().take(1) {
+                rep.violation(Violation::new(
+                    format!("{}:{name}", f.what.split(':').next().unwrap_or("")),
+                    f.what.clone(),
+                    json!({"kind": "c02-race", "space": name, "urgency": Urg::High, "snapshots_only": true, "replicas": starts[i].0.reps.len(),
+                           "prior_history": super::c01::trace_json(&starts[i].1), "racers": racers, "schedule": super::c02::trace_to_json(&f.trace), "observed": f.what}),
+                ));
+            }
+        }
+        rep.add("race_schedules", schedules);
+        rep.add("states", starts.len() as u64);
+        rep.add("transitions", schedules);
+        rep.add("traces_validated_against_impl", schedules);
+        rep.add("distinct_nontrivial", nontrivial);
+        println!("[C12] {name}: {} start states, {} race sets, {schedules} schedules, {nontrivial} distinct outcomes with a snapshot uploaded while a version was rejected ({:.1}s)", starts.len(), jobs.len(), rep.elapsed());
+    }
+}
+
 pub fn run(opts: &Opts) -> i32 {
     let rep = Report::new("C12", "model_checking", opts);
     rep.set("exhaustive", true);
@@ -116,5 +173,6 @@ pub fn run(opts: &Opts) -> i32 {
     rep.assume("'produced only when urgency meets the threshold' is asserted as snapshot => urgency>=threshold; the converse is only counted (urgency_met_but_no_snapshot)");
     run_spaces("C12", spaces(opts.tier), opts, &rep);
     many_tasks(&rep, if opts.tier == Tier::Quick { 2000 } else { 20000 });
+    races(&rep, opts);
     rep.finish()
 }
